@@ -16,6 +16,9 @@ pub mod msm;
 /// KZG commitment scheme
 pub mod params;
 mod utils;
+/// Verification hooks (add-only re-exports of private items)
+#[cfg(feature = "verif-hooks")]
+pub mod verif_hooks;
 
 use std::{fmt::Debug, hash::Hash};
 
